@@ -1,10 +1,17 @@
 import MpsVerif.Drv.Fifo
 import MpsVerif.Drv.Buffer
 import MpsVerif.Drv.Lifecycle
+import MpsVerif.Drv.Ledger
+import MpsVerif.Drv.RemoteExc
+import MpsVerif.Drv.AFifo
 
 def main (args : List String) : IO UInt32 := do
   match args with
   | ["fifo"] => Fifo.Drv.main; return 0
   | ["buffer"] => Buffer.Drv.main; return 0
   | ["lifecycle"] => Lifecycle.Drv.main; return 0
+  | ["ledger"] => Ledger.Drv.main; return 0
+  | ["remoteexc"] => RemoteExc.Drv.main; return 0
+  | ["afifo"] => AFifo.Drv.main; return 0
+  | ["afifostale"] => AFifo.Drv.mainStale; return 0
   | _ => IO.eprintln s!"usage: drv <model>   (models: fifo)"; return 2
